@@ -432,6 +432,17 @@ def gen(seed, tier):
                 msg = (b"d1:md" + body + b"ee") if wrap else (b"d" + body + b"e")
                 cases.append("R %s %s" % (TSPEC[n], hx(msg)))
                 stats["R_keylen"] += 1
+    # a table key followed by NUL + padding up to exactly / around the room left in current_key
+    for n in ("S2", "H", "D"):
+        for _, k in TABLES[n]:
+            path, leaf, raw = parse_key(k)
+            name = (path[0][0] if path else leaf)
+            for total in (14, 15, 16, 17):
+                if len(name) + 1 > total:
+                    continue
+                key = name + b"\x00" + b"x" * (total - len(name) - 1)
+                cases.append("R %s %s" % (TSPEC[n], hx(b"d" + B.ref_encode(key) + b"i7ee")))
+                stats["R_keylen"] += 1
     # deep nesting under known and unknown keys: static-map stack 8, skip stack 128, decoder depth 1024
     for d in (6, 7, 8, 9, 126, 127, 128, 129, 1023, 1024):
         cases.append("R %s %s" % (TSPEC["S2"], hx(b"d1:a" + b"d0:" * d + b"i1e" + b"e" * (d + 1))))
